@@ -343,6 +343,26 @@ class Index:
         if isinstance(expr, ast.Call) and ast.unparse(expr.func) in ("dtype", "np.dtype", "numpy.dtype") \
                 and len(expr.args) == 1:
             return "dtype(%s)" % ast.unparse(expr.args[0])
+        if isinstance(expr, ast.Call) and isinstance(expr.func, ast.Name) and expr.func.id in ("list", "tuple") and len(expr.args) == 1 \
+                and not expr.keywords:
+            v = ev(expr.args[0])
+            return list(v) if expr.func.id == "list" else tuple(v)
+        if isinstance(expr, (ast.ListComp, ast.GeneratorExp)) and len(expr.generators) == 1 and not expr.generators[0].is_async:
+            g = expr.generators[0]
+            seq = ev(g.iter)
+            out = []
+            for item in seq:
+                e2 = dict(env or {})
+                if isinstance(g.target, ast.Name):
+                    e2[g.target.id] = item
+                elif isinstance(g.target, ast.Tuple) and all(isinstance(t, ast.Name) for t in g.target.elts):
+                    for t, v in zip(g.target.elts, item):
+                        e2[t.id] = v
+                else:
+                    raise AnalysisError("comprehension target")
+                if all(self.eval_const(modname, c, e2, _depth + 1) for c in g.ifs):
+                    out.append(self.eval_const(modname, expr.elt, e2, _depth + 1))
+            return out
         raise AnalysisError("not a constant expression: %s" % ast.unparse(expr)[:80])
 
     # ------------------------------------------------------------------ classes
@@ -442,7 +462,30 @@ class Index:
         try:
             return self.eval_const(fi.module, rets[0].value)
         except AnalysisError:
+            pass
+        # a constant built in several statements: locals bound to constants, lists grown by append / extend / +=
+        env = {}
+        try:
+            for st in fi.node.body:
+                if isinstance(st, ast.Expr) and isinstance(st.value, ast.Constant):
+                    continue
+                if isinstance(st, ast.Assign) and len(st.targets) == 1 and isinstance(st.targets[0], ast.Name):
+                    env[st.targets[0].id] = self.eval_const(fi.module, st.value, env)
+                elif isinstance(st, ast.AugAssign) and isinstance(st.target, ast.Name) and isinstance(st.op, ast.Add) and st.target.id in env:
+                    env[st.target.id] = env[st.target.id] + self.eval_const(fi.module, st.value, env)
+                elif isinstance(st, ast.Expr) and isinstance(st.value, ast.Call) and isinstance(st.value.func, ast.Attribute) \
+                        and st.value.func.attr in ("append", "extend") and isinstance(st.value.func.value, ast.Name) \
+                        and st.value.func.value.id in env and isinstance(env[st.value.func.value.id], list) and len(st.value.args) == 1:
+                    v = self.eval_const(fi.module, st.value.args[0], env)
+                    nm = st.value.func.value.id
+                    env[nm] = env[nm] + ([v] if st.value.func.attr == "append" else list(v))
+                elif isinstance(st, ast.Return):
+                    return self.eval_const(fi.module, st.value, env)
+                else:
+                    return None
+        except (AnalysisError, TypeError):
             return None
+        return None
 
     def components(self):
         """Concrete Component subclasses: those whose table_name() evaluates to a string."""
